@@ -455,6 +455,7 @@ class CFG:
         when the out-edge `lab` of test t2 dominates target, another test t1 with the same
         (normalised) condition whose names are never assigned in the function must take `lab` too"""
         assigned = set()
+        stores = {}
         for n in self.nodes:
             st = n.ast
             if st is None:
@@ -462,13 +463,16 @@ class CFG:
             for x in ast.walk(st):
                 if isinstance(x, ast.Name) and isinstance(x.ctx, (ast.Store, ast.Del)):
                     assigned.add(x.id)
+                    stores.setdefault(x.id, []).append(n)
         skip = set()
         for (t2, lab2) in self.guards_of(target):
             if t2.kind != "test":
                 continue
             txt = ast.unparse(t2.ast)
             names = {x.id for x in ast.walk(t2.ast) if isinstance(x, ast.Name)}
-            if names & assigned:
+            # a name bound exactly once, before the test (the binding dominates it), is as good as never assigned:
+            # every later test of the same condition sees the same value
+            if any(nm in assigned and not (len(stores.get(nm, ())) == 1 and stores[nm][0] is not t2 and self.dominates(stores[nm][0], t2)) for nm in names):
                 continue
             for t1 in self.nodes:
                 if t1 is not t2 and t1.kind == "test" and ast.unparse(t1.ast) == txt:
